@@ -15,6 +15,7 @@ Proof.
   - constructor; intros; exact Logic.I.
   - intros; exact Logic.I.
   - intros; exact Logic.I.
+  - intros; exact Logic.I.
 Qed.
 
 Lemma render_notemplate_x cf ux fuel name id data cl bl fid :
